@@ -153,6 +153,10 @@ def election_core(d, size, equal=False, undeclared=False, withdrawn=True, min_ca
         ballots.append([short, [[d.choice(el)]]])
     if names == 'plain':
         case['names'] = None
+    if d.p(12):
+        case['source'] = d.choice(['the source', 'src', 'S 1'])
+        if d.p(50):
+            case['comment'] = d.choice(['a comment', 'c', 'note 2'])
     return case
 
 
